@@ -233,7 +233,19 @@ def _wide(ctx: Ctx, item):
         ctx.report(b + "|wide", w + f" (history of {width} pending filtered-out streams)", {"wide": width, "config": ci})
 
 
+def _clients(ctx: Ctx, item=None):
+    """Filters handed to each gateway client (numbers, ids in any letter case, mixed): the client delivers what a bare decoder with the
+    same filters returns."""
+    from .. import clientopts as co
+    msgs = co.standard_traffic(co.CONVERTIBLE[:4] + co.FAST + co.KEYED[:3], sources=(1, 2))
+    sets = [("exclude_pgns=[130306, 'VESSELHEADING']", lambda: {"exclude_pgns": [130306, "VESSELHEADING"]}),
+            ("include_pgns=['gnsspositiondata', 127505, 'isoAddressClaim']", lambda: {"include_pgns": ["gnsspositiondata", 127505, "isoAddressClaim"]}),
+            ("exclude_pgns=[60928, 'fluidLevel'], build_network_map=True", lambda: {"exclude_pgns": [60928, "fluidLevel"], "build_network_map": True}),
+            ("include_pgns=[129029]", lambda: {"include_pgns": [129029]})]
+    co.run(ctx, "C10", sets, msgs, reconnects=((), (5,)))
+
 def run(ctx: Ctx):
+    pmap(ctx, _clients, [None])
     db0 = canboat.db()
     widths = [3, 60, 300, 1030, 2100] if ctx.quick else [3, 60, 300, 1030, 2100, 4200, 9000, 20000, 66000]
     pmap(ctx, _wide, [(w, ci) for w in widths for ci in range(len(wide_configs()))])
@@ -243,6 +255,9 @@ def run(ctx: Ctx):
 
 
 def replay(ctx: Ctx, case):
+    if case.get("clientopts"):
+        from .. import clientopts as co
+        return co.replay("C10", _clients, case)
     if "wide" in case:
         mode, entries = wide_configs()[case["config"]]
         res, _, kept = run_case(mode, entries, wide_items(case["wide"]))
